@@ -387,6 +387,35 @@ class ProgGen:
         t = [q for q in self.qids if q not in cur][:1] or self._targets_for(c)
         self.pending.append({"op": "target", "qubits": t[0] if r.random() < 0.5 else t, "ch": n})
 
+    def _motif_short_behind(self, op: dict) -> None:
+        """After a pulse: a long pulse on the same channel, a short 'no-delay' pulse on another channel sharing an atom
+        (ending while the long one still plays), a phase shift on the shared atom, and another 'no-delay' pulse on
+        that other channel - which has to wait for the end of the long pulse, when the shift takes effect. (opt-in)"""
+        if "short-behind" not in self.motifs or self.pending:
+            return
+        r = self.rng
+        n = op["ch"]
+        c = self.chans.get(n)
+        if c is None or c["eom"] or c["dmm"] or r.random() >= self.motifs["short-behind"]:
+            return
+        mine = set(c["targets"])
+        others = [m for m, o in self.chans.items() if m != n and not o["dmm"] and not o["eom"] and o["basis"] == c["basis"]
+                  and mine & set(o["targets"]) and not o.get("slm_wait")]
+        if not others:
+            return
+        m = pick(r, others)
+        shared = sorted(mine & set(self.chans[m]["targets"]), key=str)
+        sp, so = c["spec"], self.chans[m]["spec"]
+        unit = lambda spec: -(-max(int(spec.get("min_duration", 1)), 1) // int(spec.get("clock_period", 1))) * int(spec.get("clock_period", 1))  # noqa: E731
+        long_d = int(min(unit(sp) * pick(r, [40, 80, 150]), sp.get("max_duration") or 10 ** 7))
+        self.pending.append({"op": "add", "pulse": gen_pulse(r, sp, d=long_d, phase=self._phase(n), pps_p=0.0), "ch": n})
+        self.pending.append({"op": "add", "pulse": gen_pulse(r, so, d=unit(so) * pick(r, [1, 2, 4]), phase=self._phase(m), pps_p=0.3),
+                             "ch": m, "protocol": "no-delay"})
+        if r.random() < 0.75:
+            self.pending.append({"op": "phase_shift", "phi": pick(r, PHASES[2:]), "targets": [pick(r, shared)], "basis": c["basis"]})
+        self.pending.append({"op": "add", "pulse": gen_pulse(r, so, d=unit(so) * pick(r, [1, 3, 8]), phase=self._phase(m)),
+                             "ch": m, "protocol": "no-delay"})
+
     def _motif_eom_at_zero(self, op: dict, c: dict) -> None:
         """EOM mode entered on a channel that is still empty (for a local one right after its first, zero-length,
         target instruction): blocks starting at t = 0."""
@@ -765,6 +794,7 @@ class ProgGen:
         elif k == "add":
             self.nonempty = True
             self._motif_fall(op)
+            self._motif_short_behind(op)
             if "phase" in op["pulse"]:
                 self.last_phase[op["ch"]] = op["pulse"]["phase"]
             if op["pulse"].get("pps"):
